@@ -93,3 +93,19 @@ Fixpoint while_fuel {S : Type} (fuel : nat) (st : S) (cond : S -> outcome bool) 
       do c <- cond st ;
       if (c : bool) then do st' <- body st ; while_fuel fuel' st' cond body else Val st
   end.
+
+(* the tuple struct Matrix(u64, u64, u64, u64, bool) of algorithms/gcd/matrix.rs and its fields .0 .. .4 *)
+Definition mat_0 (m : Z * Z * Z * Z * bool) : Z := let '(a, _, _, _, _) := m in a.
+Definition mat_1 (m : Z * Z * Z * Z * bool) : Z := let '(_, a, _, _, _) := m in a.
+Definition mat_2 (m : Z * Z * Z * Z * bool) : Z := let '(_, _, a, _, _) := m in a.
+Definition mat_3 (m : Z * Z * Z * Z * bool) : Z := let '(_, _, _, a, _) := m in a.
+Definition mat_4 (m : Z * Z * Z * Z * bool) : bool := let '(_, _, _, _, a) := m in a.
+
+(* `loop { body }` that is left only by `return`, with a round bound from the translator's table *)
+Fixpoint loop_fuel_ret {S R : Type} (fuel : nat) (st : S) (body : S -> outcome (ctl S R)) : outcome R :=
+  match fuel with
+  | O => OutOfFuel
+  | Datatypes.S fuel' =>
+      do c <- body st ;
+      match c with Ret r => Val r | Cont st' => loop_fuel_ret fuel' st' body end
+  end.
